@@ -130,6 +130,41 @@ func (t *T) assignTok(op string) string {
 	return "(.other " + leanStr(op) + ")"
 }
 
+// litInt evaluates an integer / character literal (possibly parenthesised or built from literals).
+func litInt(e ast.Expr) (int64, bool) {
+	switch x := e.(type) {
+	case *ast.ParenExpr:
+		return litInt(x.X)
+	case *ast.BasicLit:
+		switch x.Kind {
+		case token.INT:
+			n, err := strconv.ParseInt(x.Value, 0, 64)
+			return n, err == nil
+		case token.CHAR:
+			r, _, _, err := strconv.UnquoteChar(x.Value[1:len(x.Value)-1], '\'')
+			return int64(r), err == nil
+		}
+	case *ast.BinaryExpr:
+		a, ok1 := litInt(x.X)
+		b, ok2 := litInt(x.Y)
+		if ok1 && ok2 {
+			switch x.Op {
+			case token.ADD:
+				return a + b, true
+			case token.SUB:
+				return a - b, true
+			case token.MUL:
+				return a * b, true
+			case token.OR:
+				return a | b, true
+			case token.AND:
+				return a & b, true
+			}
+		}
+	}
+	return 0, false
+}
+
 // Expr translates an expression.
 func (t *T) Expr(e ast.Expr) string {
 	switch x := e.(type) {
@@ -175,6 +210,27 @@ func (t *T) Expr(e ast.Expr) string {
 		}
 		return "(.sel " + t.Expr(x.X) + " " + leanStr(x.Sel.Name) + ")"
 	case *ast.BinaryExpr:
+		// literal arithmetic (`0x5F+1`, `1<<3`) is folded: it is not part of the decision structure
+		if a, ok := litInt(x.X); ok {
+			if b, ok := litInt(x.Y); ok {
+				switch x.Op {
+				case token.ADD:
+					return intLit(a + b)
+				case token.SUB:
+					return intLit(a - b)
+				case token.MUL:
+					return intLit(a * b)
+				case token.OR:
+					return intLit(a | b)
+				case token.AND:
+					return intLit(a & b)
+				case token.SHL:
+					if b >= 0 && b < 62 {
+						return intLit(a << uint(b))
+					}
+				}
+			}
+		}
 		return "(.bin " + t.binOp(x.Op.String()) + " " + t.Expr(x.X) + " " + t.Expr(x.Y) + ")"
 	case *ast.UnaryExpr:
 		return "(.un " + t.unOp(x.Op.String()) + " " + t.Expr(x.X) + ")"
